@@ -144,7 +144,7 @@ def op_topics(op):
     for k, v in enumerate(segs):
         if not v:
             continue
-        if v[0] in ('first', 'firstp') and len(v) > 7 and v[2] == 'connect':
+        if v[0] in ('first', 'firstp', 'hsrace') and len(v) > 7 and v[2] == 'connect':
             if v[7] != '~':
                 out.append(v[7].split(':')[0])
             continue
@@ -160,6 +160,11 @@ def op_topics(op):
             out.extend(v[2].split(','))
         elif v[0] in ('srvsub', 'srvunsub') and len(v) > 2:
             out.append(v[2])
+        elif v[0] == 'srvsubrepub' and len(v) > 4:
+            out.extend([v[2], v[4]])
+        elif v[0] == 'unsubrace' and len(v) > 5:
+            out.extend(v[4].split(','))
+            out.append(v[5])
     return [t for t in map(_unhex, out) if t is not None]
 
 
@@ -245,6 +250,25 @@ def has_empty_level(prefix):
     return any(t.startswith(b'/') or t.endswith(b'/') or b'//' in t for op in prefix for t in _topics_in(op))
 
 
+def _connect_cid(hexbytes):
+    """client identifier (hex, '-' = empty) of a CONNECT given as the hex of its bytes, or None"""
+    b = _unhex(hexbytes)
+    if not b or b[0] >> 4 != 1:
+        return None
+    i = 1
+    while i < len(b) and i <= 4 and b[i] & 0x80:
+        i += 1
+    i += 1                                   # first byte of the variable header
+    if i + 2 > len(b):
+        return None
+    i += 2 + ((b[i] << 8) | b[i + 1]) + 4    # protocol name, level, flags, keep-alive
+    if i + 2 > len(b):
+        return None
+    n = (b[i] << 8) | b[i + 1]
+    cid = b[i + 2:i + 2 + n]
+    return binascii.hexlify(cid).decode() if cid else '-'
+
+
 def overlap_episode(prefix, impl=None, spec=None):
     """two live connections presented the same client identifier earlier in the episode: the broker keeps
     both on one shared session (no take-over); the specification leaves everything after that open and what
@@ -252,7 +276,15 @@ def overlap_episode(prefix, impl=None, spec=None):
     live = {}
     for op in prefix:
         w = op.split()
-        if len(w) >= 13 and w[1] in ('first', 'firstp') and w[3] == 'connect':
+        if len(w) >= 13 and w[1] in ('first', 'firstp', 'hsrace') and w[3] == 'connect':
+            if w[1] == 'hsrace' and ';' in w and len(w) > w.index(';') + 2:
+                # the other connection's first packet comes first
+                k = w.index(';')
+                bcid = _connect_cid(w[k + 2])
+                if bcid is not None:
+                    if bcid != '-' and bcid in live.values():
+                        return True
+                    live[w[k + 1]] = bcid
             cid = w[11]
             if cid != '-' and cid in live.values():
                 return True
@@ -270,6 +302,9 @@ BROKER_ASSUMPTIONS = [
     "outbound ack queues (Pub1ack/Pub2out) have no observable effect in the broker role and are not modelled",
     "packets are compared decoded (field level) with the harness's own reference codec; byte-level codec properties are C03/C04",
     "fan-out order is a Go map order: runs of consecutive PUBLISH packets are compared as multisets; the identifier an in-process callback sees is not compared",
+    "`unsubrace` events: the other connection's PUBLISH is written the moment the harness's client of the unsubscribing connection has parsed the UNSUBACK, with no barrier in between, and the line is observed behind barriers on the publisher, then the unsubscriber, then everybody else; a broker that acknowledges before it has removed the filters is caught dynamically only if its removal loop outlasts the harness's reaction time (0.1-0.5 ms against 5-10 ms for the generated lists of 600-1000 filters of 70-100 levels) - the statement order itself is a regenerated fact (C07_ack_follows_effects)",
+    "`srvsubrepub` callbacks call Server.Publish (same payload, QoS 0, RETAIN 0) from inside the callback; the Lean driver performs the nested publish right behind the delivery on the state after the step (such a publish draws no identifier and retains nothing, so it commutes with the rest of the step), follows at most 4 nested levels (the generators keep targets disjoint from the republishing callbacks' filters), leaves the line open when a republishing callback holds several matching subscriptions, and republishes nothing for copies on topics beginning with '$' (which only the reference broker hands to a callback; such copies are not compared)",
+    "`hsrace` events: while one is in progress the harness's authenticator holds every user name beginning with \"slow\" inside Authenticate (it signals the entry; released when the other connection has been observed to the end, at the latest after 5 s); the driver takes the other connection's first packet before the held CONNECT - the order in which the unchanged code completes them - and that the two handshakes share no state is what the event tests, not an assumption",
     "the identifier generated for a client that connects without one (auto- + 96 random bits from crypto/rand) never coincides with a client-supplied identifier or with another generated one: the model represents it by a byte string outside the set of acceptable supplied identifiers",
 ]
 
